@@ -37,6 +37,23 @@ from guppylang.std.quantum import (qubit, h, x, y, z, s, sdg, t, tdg, v, vdg, rx
 from guppylang.std import qsystem
 from guppylang.std.angles import angle, pi
 from guppylang.std.debug import state_result
+from collections.abc import Callable
+
+@guppy
+def app1(f: Callable[[qubit], None], q: qubit) -> None:
+    f(q)
+
+@guppy
+def app2(f: Callable[[qubit, qubit], None], a: qubit, b: qubit) -> None:
+    f(a, b)
+
+@guppy
+def appr(f: Callable[[qubit, angle], None], q: qubit, a: angle) -> None:
+    f(q, a)
+
+@guppy
+def appb(f: Callable[[qubit], bool], q: qubit) -> bool:
+    return f(q)
 
 '''
 SQ2 = 1 / math.sqrt(2)
@@ -167,16 +184,30 @@ def build(rng):
         if c < 0.4:
             g = rng.choice(list(GATES1))
             q = rng.randrange(nq)
-            lines.append(f"    {g}({names[q]})")
+            if rng.random() < 0.2:
+                # the library function as a first-class value (through a higher-order helper or a
+                # local variable): same gate, different lowering path
+                if rng.random() < 0.5:
+                    lines.append(f"    app1({g}, {names[q]})")
+                else:
+                    lines.append(f"    fv{len(lines)} = {g}")
+                    lines.append(f"    fv{len(lines) - 1}({names[q]})")
+                uses.append(g + ":as-value")
+            else:
+                lines.append(f"    {g}({names[q]})")
+                uses.append(g)
             ops.append(("u", GATES1[g], [q]))
-            uses.append(g)
         elif c < 0.6:
             g = rng.choice(list(ROT1))
             q = rng.randrange(nq)
             a, av = angle_expr(rng)
-            lines.append(f"    {g}({names[q]}, {a})")
+            if rng.random() < 0.2:
+                lines.append(f"    appr({g}, {names[q]}, {a})")
+                uses.append(g + ":as-value")
+            else:
+                lines.append(f"    {g}({names[q]}, {a})")
+                uses.append(g)
             ops.append(("u", ROT1[g](av * math.pi), [q]))
-            uses.append(g)
         elif c < 0.66:
             q = rng.randrange(nq)
             a, av = angle_expr(rng, 1)
@@ -197,7 +228,10 @@ def build(rng):
                 lines.append(f"    qsystem.zz_phase({names[a_]}, {names[b_]}, {a})")
                 ops.append(("u", ZZPhase(av * math.pi), [a_, b_]))
             else:
-                lines.append(f"    {g}({names[a_]}, {names[b_]})")
+                if rng.random() < 0.2:
+                    lines.append(f"    app2({g}, {names[a_]}, {names[b_]})")
+                else:
+                    lines.append(f"    {g}({names[a_]}, {names[b_]})")
                 ops.append(("u", GATES2[g], [a_, b_]))
             uses.append(f"{g}:{order}")
         elif c < 0.94 and nq >= 3:
@@ -208,7 +242,8 @@ def build(rng):
         elif with_meas:
             q = rng.randrange(nq)
             mcount += 1
-            lines.append(f"    m{mcount} = project_z({names[q]})")
+            lines.append(f"    m{mcount} = project_z({names[q]})" if rng.random() < 0.7 else
+                         f"    m{mcount} = appb(project_z, {names[q]})")
             lines.append(f'    result("m{mcount}", m{mcount})')
             ops.append(("pz", q, f"m{mcount}"))
             uses.append("project_z")
